@@ -164,7 +164,18 @@ func checkC02(c *Checker) {
 					// by D0 every buffer's depth is 8*sizeof(T): a view that takes it from the element type gets the
 					// same value as one that copies the receiver's
 					ct := canon(valTerm(fi.at(hdr, fi.bitDepth)))
-					if a := sizeofAtomOf(ct); a.Name != "sizeof(?)" {
+					// (only while D0 itself holds: a constructor that gives a buffer another depth makes the two differ)
+					subD := newChecker(c.Prop, c.Tier, c.Seed, c.verifDir)
+					subD.W = c.W
+					subD.sums = c.sums
+					depthInvariant(subD, "C02-D0")
+					d0 := true
+					for _, ob := range subD.Obligs {
+						if ob.Verdict != Proved {
+							d0 = false
+						}
+					}
+					if a := sizeofAtomOf(ct); d0 && a.Name != "sizeof(?)" {
 						bdOK = true
 						for _, sz := range []int64{1, 2, 4, 8} {
 							v := canon(ct.subst(map[string]*Term{a.Name: mkInt(sz, a.Typ)}))
